@@ -63,29 +63,67 @@ impl Fmt {
     }
 }
 
+/// entries that grow one of the formatter's reusable buffers beyond the 1 MiB it shrinks back to:
+/// tag % 4 = 0 a multi-megabyte string property (string_fields_buf), 1 thousands of metrics with
+/// long names (metrics_buf / decl_buf / fields_buf), 2 one metric with >100 000 repeated
+/// observations (fields_buf and counts_buf), 3 split mode with a megabyte-sized dimension value
+/// (per-dimension-set buffers)
 fn huge_entry(mb_tenths: u8, tag: u8) -> GenEntry {
     let n = 1_100_000 + (mb_tenths as usize % 20) * 100_000;
-    GenEntry {
-        ops: vec![
-            Op::Timestamp {
-                secs: 1,
-                nanos: 0,
-                before_epoch: false,
-            },
+    let ts = Op::Timestamp {
+        secs: 1,
+        nanos: 0,
+        before_epoch: false,
+    };
+    let metric = |name: String, obs: Vec<Obs>, dims: Vec<(String, String)>| Op::Value {
+        name,
+        val: Val::Metric {
+            obs,
+            unit: UnitG(1),
+            dims,
+            flags: FlagG::None,
+        },
+    };
+    let ops = match tag % 4 {
+        0 => vec![
+            ts,
             Op::Value {
                 name: format!("Huge{tag}"),
                 val: Val::Str("x\"y".repeat(n / 3)),
             },
-            Op::Value {
-                name: "HugeMetric".into(),
-                val: Val::Metric {
-                    obs: (0..((tag as u64 % 4) * 20_000)).map(Obs::U).collect(),
-                    unit: UnitG(1),
-                    dims: vec![],
-                    flags: FlagG::None,
-                },
-            },
+            metric("HugeMetric".into(), (0..((tag as u64 / 4 % 4) * 20_000)).map(Obs::U).collect(), vec![]),
         ],
+        1 => {
+            let mut v = vec![ts];
+            let pad = "n".repeat(300);
+            for i in 0..(n / 330) {
+                v.push(metric(format!("M{i}_{pad}"), vec![Obs::U(i as u64)], vec![]));
+            }
+            v
+        }
+        2 => vec![
+            ts,
+            metric(
+                "ManyObservations".into(),
+                (0..(n as u64 / 9))
+                    .map(|i| Obs::Rep {
+                        total: F(1e300 + i as f64 * 1e290),
+                        occ: 10_000_000_000_000_000_000u64 - i,
+                    })
+                    .collect(),
+                vec![],
+            ),
+        ],
+        _ => vec![
+            Op::Config(CfgG::AllowSplit),
+            ts,
+            metric("SplitA".into(), vec![Obs::U(1)], vec![("HugeDim".into(), "d".repeat(n))]),
+            metric("SplitB".into(), vec![Obs::U(2), Obs::U(3)], vec![("HugeDim".into(), "d".repeat(n))]),
+            metric("SplitC".into(), vec![Obs::U(4)], vec![("OtherDim".into(), "e".repeat(n / 2))]),
+        ],
+    };
+    GenEntry {
+        ops,
         sample_group: vec![],
     }
 }
@@ -98,7 +136,8 @@ pub fn check(case: &Case) -> CaseResult {
     let mut nt = false;
     for (i, item) in case.items.iter().enumerate() {
         if let Mode::CloneAt(at) = case.mode {
-            if at as usize == i {
+            // the clone point is relative to the sequence: always between two items
+            if (at as usize) % (case.items.len().max(2) - 1) + 1 == i {
                 if let Fmt::Plain(e) = &long {
                     long = Fmt::Plain(e.clone());
                     classes.push("cloned-mid-sequence");
@@ -224,7 +263,19 @@ pub fn check(case: &Case) -> CaseResult {
             classes.push("rejected-item");
         }
         match item.kind.as_str() {
-            "huge" => classes.push("huge-item"),
+            "huge" => {
+                classes.push("huge-item");
+                let names: Vec<&str> = item.entry.ops.iter().filter_map(|o| if let Op::Value { name, .. } = o { Some(name.as_str()) } else { None }).collect();
+                classes.push(if names.iter().any(|n| n.starts_with("M0_")) {
+                    "huge-many-long-metric-names"
+                } else if names.contains(&"ManyObservations") {
+                    "huge-many-repeated-observations"
+                } else if names.contains(&"SplitA") {
+                    "huge-split-dimension-values"
+                } else {
+                    "huge-string-property"
+                });
+            }
             "error-report" => classes.push("error-report-item"),
             "arbitrary" => classes.push("arbitrary-item"),
             "defect" => classes.push("defect-item"),
@@ -267,7 +318,7 @@ fn arb_case(max_items: usize, huge_weight: u32) -> impl Strategy<Value = Case> {
         ),
         prop_oneof![
             3 => Just(Mode::Plain),
-            2 => (0u8..8).prop_map(Mode::CloneAt),
+            2 => (0u8..=255).prop_map(Mode::CloneAt),
             2 => Just(Mode::Sampled),
         ],
     )
@@ -335,11 +386,11 @@ pub fn run(ctx: &mut Ctx) {
     ctx.explore(
         SubCfg::new(
             "c14-huge-entries",
-            "same as c14-history-independence with 2-5 items of which ~1/3 are multi-megabyte (string of 1.1-3 MB and up to 60 000 observations), so that buffer shrinking after a large entry is exercised; non-trivial as above",
+            "same as c14-history-independence with 2-5 items of which ~1/3 are multi-megabyte in one of four ways (a 1.1-3 MB string property; thousands of metrics with 300-byte names; one metric with >120 000 repeated observations with 20-digit counts; split mode with megabyte-sized dimension values), so that every reusable buffer - also those with a non-empty prefix - shrinks after a large entry and is reused; non-trivial as above",
             if q { 150 } else { 4_000 },
         )
         .threads(threads)
-        .mandatory(&["huge-item"])
+        .mandatory(&["huge-item", "huge-many-long-metric-names", "huge-many-repeated-observations", "huge-split-dimension-values", "huge-string-property"])
         .shrink_iters(200),
         || arb_case(5, 9),
         check,
